@@ -331,7 +331,9 @@ func (s *Crash) Run(env *core.Env, st *core.Stats) (vs []core.Violation) {
 		if o.call.alloc > allocBound(len(data)) {
 			return []core.Violation{core.V("allocation", "alloc", "%s: ReadFrom allocated %d bytes (bound %d)", what, o.call.alloc, allocBound(len(data)))}
 		}
-		if o.err == nil && s.Have >= s.Declared && s.Declared > 0 && len(o.s.Tracks) != s.Declared {
+		// all declared tracks are there: the value has them; surplus track chunks may be
+		// ignored or read, but no track that is not in the input may appear
+		if o.err == nil && s.Have >= s.Declared && s.Declared > 0 && o.s != nil && (len(o.s.Tracks) < s.Declared || len(o.s.Tracks) > s.Have) {
 			return []core.Violation{core.V("fabrication", "track-count", "%s: ReadFrom returned %d tracks", what, len(o.s.Tracks))}
 		}
 		return nil
